@@ -128,6 +128,8 @@ def gen_case(rng: random.Random, cfg: str | None = None, max_nodes: int = 8, fra
         spec["scale"] = None if r < 0.6 else [1.0] * ndim
     spec["nodes"] = nodes
     spec["edges"] = edges
+    if rng.random() < 0.2:
+        spec["prebuilt"] = True   # constructed from a pre-built FeatureDict
     return spec
 
 
